@@ -41,18 +41,18 @@ call) every node that was loadable at the start still loads, under the same blob
 deletion of phase 1 and of the live rollback (`SInv.delBlobs_static`, `SInv.delRegs`): their targets are ids with
 inactive provenance, new-node ids or value-blob ids, never a pre-existing node's active id. -/
 theorem C10_phase1_keeps_loadable (s0 : State) (w : WS) (fresh0 : List (UUID × UUID)) (pre : Pre s0 w fresh0)
-    (fault : Option Fault) (tid : Tid) (n : Nat) :
-    match phase1 w n { s := s0, tid := tid, fault := fault, fresh := fresh0 } with
+    (fault : Option Fault) {cs0 : Step} (tid : Tid) (n : Nat) :
+    match phase1 w n { s := s0, tid := tid, fault := fault, fresh := fresh0, cs := cs0 } with
     | .ok (_, r) => ∀ lid, (s0.view lid).isSome → r.s.view lid = s0.view lid
     | .error r => ∀ lid, (s0.view lid).isSome → r.s.view lid = s0.view lid :=
   phase1_keeps_views pre fault tid n
 
 /-- and the same after the live rollback of a failed phase 1 -/
 theorem C10_failed_commit_keeps_loadable (s0 : State) (w : WS) (fresh0 : List (UUID × UUID)) (pre : Pre s0 w fresh0)
-    (fault : Option Fault) (tid : Tid) (n : Nat) (r1 : Run)
-    (hf : phase1 w n { s := s0, tid := tid, fault := fault, fresh := fresh0 } = .error r1) :
+    (fault : Option Fault) {cs0 : Step} (tid : Tid) (n : Nat) (r1 : Run)
+    (hf : phase1 w n { s := s0, tid := tid, fault := fault, fresh := fresh0, cs := cs0 } = .error r1) :
     ∀ lid, (s0.view lid).isSome →
-      (commit w n { s := s0, tid := tid, fault := fault, fresh := fresh0 }).2.s.view lid = s0.view lid :=
+      (commit w n { s := s0, tid := tid, fault := fault, fresh := fresh0, cs := cs0 }).2.s.view lid = s0.view lid :=
   commit_phase1_failure_keeps_views pre fault tid n r1 hf
 
 /-- **A successful commit's cleanup never deletes data a committed state references**: after `Commit` returned ok
@@ -61,9 +61,9 @@ other node that was loadable before and was not removed by this transaction stil
 cleanup's targets (old active ids of flipped nodes, active ids of removed nodes, obsolete value blobs) are shown
 disjoint from both (`Flipped.delBlobs`, `Flipped.delRegs`). -/
 theorem C10_committed_nodes_load (s0 : State) (w : WS) (fresh0 : List (UUID × UUID)) (pre : Pre s0 w fresh0)
-    (pre2 : Pre2 s0 w fresh0) (fault : Option Fault) (tid : Tid) (n : Nat) (r2 : Run)
-    (hok : commit w n { s := s0, tid := tid, fault := fault, fresh := fresh0 } = (.ok, r2)) :
-    ∃ r1, phase1 w n { s := s0, tid := tid, fault := fault, fresh := fresh0 } = .ok ((), r1) ∧
+    (pre2 : Pre2 s0 w fresh0) (fault : Option Fault) {cs0 : Step} (tid : Tid) (n : Nat) (r2 : Run)
+    (hok : commit w n { s := s0, tid := tid, fault := fault, fresh := fresh0, cs := cs0 } = (.ok, r2)) :
+    ∃ r1, phase1 w n { s := s0, tid := tid, fault := fault, fresh := fresh0, cs := cs0 } = .ok ((), r1) ∧
       (∀ h ∈ r1.reserved, h.inactive ≠ 0 → (r2.s.view h.lid).isSome) ∧
       (∀ lid, (s0.view lid).isSome → (∀ h ∈ r1.reserved, h.lid ≠ lid) → (∀ g ∈ r1.removedH, g.lid ≠ lid) →
         r2.s.view lid = s0.view lid) := by
@@ -74,11 +74,11 @@ theorem C10_committed_nodes_load (s0 : State) (w : WS) (fresh0 : List (UUID × U
 before**: phase 1, live rollback, phase 2's log write, the flip failing with or without effect (then the priority
 rollback puts the logged images back before the undo routines delete the staged blobs). -/
 theorem C10_any_failed_commit_keeps_loadable (s0 : State) (w : WS) (fresh0 : List (UUID × UUID)) (pre : Pre s0 w fresh0)
-    (pre2 : Pre2 s0 w fresh0) (fault : Option Fault) (tid : Tid) (n : Nat)
-    (herr : (commit w n { s := s0, tid := tid, fault := fault, fresh := fresh0 }).1 = .err) :
+    (pre2 : Pre2 s0 w fresh0) (fault : Option Fault) {cs0 : Step} (tid : Tid) (n : Nat)
+    (herr : (commit w n { s := s0, tid := tid, fault := fault, fresh := fresh0, cs := cs0 }).1 = .err) :
     ∀ lid, (s0.view lid).isSome →
-      (commit w n { s := s0, tid := tid, fault := fault, fresh := fresh0 }).2.s.view lid = s0.view lid := by
-  cases h1 : phase1 w n { s := s0, tid := tid, fault := fault, fresh := fresh0 } with
+      (commit w n { s := s0, tid := tid, fault := fault, fresh := fresh0, cs := cs0 }).2.s.view lid = s0.view lid := by
+  cases h1 : phase1 w n { s := s0, tid := tid, fault := fault, fresh := fresh0, cs := cs0 } with
   | error r1 => exact commit_phase1_failure_keeps_views pre fault tid n r1 h1
   | ok p =>
     obtain ⟨u, r1⟩ := p
